@@ -64,6 +64,8 @@ struct Knobs {
 	int palette		= 0;	// rng palette: 0 mixed, 1 hostile (near 0 / near 1 / dyadic boundaries)
 	int zeroUtil	= 1;	// allow zero utilities where the precondition stays satisfied
 	int pendq		= 1;	// log isPending vectors in the first guard of single-request rounds
+	int structDump	= 0;	// dump structure() / activityHistory() after each operation
+	int logAnswers	= 0;	// record select/rank/utility callbacks too ('a' lines)
 	int planDump	= 0;	// dump every region's plan after each operation (Plan and CPlan iteration)
 };
 
